@@ -30,10 +30,11 @@ Proved (proof, partial) for the unary operation classes between ITERATION engine
     (`_begin_apply` resolves the common columns; a join that cannot be moved all the way into the database is refused
     with `EngineError` because its operands live in different engines); `join_with_backtracking_and_transfer_sound`:
     the same for either value of `transfer` (not finished + `transfer=True`: the target is transferred into the database
-    and joined there).
+    and joined there); `join_with_every_option_sound`: every combination of `backtrack` / `transfer` /
+    `require_preferred_engine`.
 Excluded by hypothesis, not proved: a Projection back-tracked past a Deduplication (`spineNoDedup`;
 this is the unsound pair of C04, finding F04); for joins, an explicit preferred engine other than the fixed relation's,
-`backtrack=False`, a there-and-back pair that `transfer=True` would strip, and payload-holding Transfers on the way
+a there-and-back pair that `transfer=True` would strip, and payload-holding Transfers on the way
 (`spineNoPayload`); and `transfer=True` towards a SQL preferred engine from an iteration-engine
 target combined with back-tracking: those are validated by correspondence + oracle.
 
@@ -189,6 +190,32 @@ theorem join_with_backtracking_and_transfer_sound (σ : Leaves) (st : Store) (fu
   obtain ⟨p', hb, B | ⟨ht, J⟩⟩ :=
     applyOp_pj_any_transfer σ st fuel p t o hpref hbt hkt hks gF hfix0 hwf htrt hpo hnp hts res h
   · exact ⟨p', hb, B.wf, B.truthful, Or.inl B.engine, B.rows, B.cols⟩
+  · obtain ⟨f1, _⟩ := pjBeginApply_ok p t none p' _ hfix0 hb
+    exact ⟨p', hb, J.wf, J.truthful, Or.inr ⟨ht, by rw [J.engine, f1]⟩, J.rows, J.cols⟩
+
+/-- **A join applied with EVERY combination of `backtrack` / `transfer` / `require_preferred_engine`** (the preferred
+engine is the fixed relation's database - the default of `PartialJoin._begin_apply` -, the target lives in an
+iteration engine): whenever the call succeeds the result is well-formed and has the columns and - as a multiset - the
+rows of the join applied at the root; it lives in the target's engine (only possible with `backtrack=True`: the join
+was moved into the database below a transfer) or in the preferred engine (only possible with `transfer=True`: the target
+was transferred into the database and joined there).  With neither option the call raises. -/
+theorem join_with_every_option_sound (σ : Leaves) (st : Store) (fuel : Nat) (p : PJoin) (t : Rel)
+    (o : Opts) (hpref : o.pref = none)
+    (hkt : t.engine.kind = .iter) (hks : p.fixed.engine.kind = .sql)
+    (gF : Good NodeInv.triv σ p.fixed)
+    (hfix0 : p.join.resolved = true → p.join.minCols.subset p.fixed.columns = true)
+    (hwf : t.WF) (htrt : t.Truthful σ) (hpo : t.prefTargetsGood NodeInv.triv σ p.fixed.engine)
+    (hnp : t.spineNoPayload st) (hts : o.transfer = true → transferSimplify p.fixed.engine t = none)
+    (res : Res) (h : applyOp st fuel (.pj p) t o = .ok res) :
+    ∃ p', p.beginApply t none = .ok (p', p.fixed.engine) ∧
+      (res.get t).WF ∧ (res.get t).Truthful σ ∧
+      ((o.backtrack = true ∧ (res.get t).engine = t.engine) ∨
+        (o.transfer = true ∧ (res.get t).engine = p.fixed.engine)) ∧
+      List.Perm (sem σ (res.get t)) (p'.semRows (sem σ p'.fixed) (sem σ t)) ∧
+      (∀ x, x ∈ (res.get t).columns ↔ x ∈ p'.appliedColumns t.columns) := by
+  obtain ⟨p', hb, ⟨hbt, B⟩ | ⟨ht, J⟩⟩ :=
+    applyOp_pj_all_options σ st fuel p t o hpref hkt hks gF hfix0 hwf htrt hpo hnp hts res h
+  · exact ⟨p', hb, B.wf, B.truthful, Or.inl ⟨hbt, B.engine⟩, B.rows, B.cols⟩
   · obtain ⟨f1, _⟩ := pjBeginApply_ok p t none p' _ hfix0 hb
     exact ⟨p', hb, J.wf, J.truthful, Or.inr ⟨ht, by rw [J.engine, f1]⟩, J.rows, J.cols⟩
 
